@@ -377,14 +377,35 @@ func (p *Prog) buildCallGraph(kind string) error {
 					}
 				}
 				// function values passed as arguments (closures, method values)
+				addValue := func(fn *ssa.Function) {
+					if fn == nil {
+						return
+					}
+					if p.InModule(fn) {
+						add(fn)
+						return
+					}
+					if fn.Synthetic != "" {
+						// a bound-method wrapper / thunk handed on as a value: what it forwards to
+						for _, wb := range fn.Blocks {
+							for _, win := range wb.Instrs {
+								if wci, ok := win.(ssa.CallInstruction); ok {
+									if inner := wci.Common().StaticCallee(); inner != nil && p.InModule(inner) {
+										add(inner)
+									}
+								}
+							}
+						}
+					}
+				}
 				for _, a := range ci.Common().Args {
 					if mc, ok := a.(*ssa.MakeClosure); ok {
 						if fn, ok := mc.Fn.(*ssa.Function); ok {
-							add(fn)
+							addValue(fn)
 						}
 					}
 					if fn, ok := a.(*ssa.Function); ok {
-						add(fn)
+						addValue(fn)
 					}
 				}
 			}
